@@ -117,6 +117,7 @@ func (m *engineImpl) crashpoint(k int) string {
 	r := &engineImpl{c: m.c, dir: s.dir}
 	defer func() {
 		r.closeFiles()
+		_ = os.RemoveAll(filepath.Join(s.dir, "data", "dbs")) // see engineImpl.Close
 		if r.store != nil {
 			_ = r.store.Close()
 		}
